@@ -122,6 +122,13 @@ impl Prop for C10 {
                 } else {
                     (lat_any, date)
                 };
+                // a tenth of the nearest-latitude cases: substitute latitude within 1e-6 .. 0.05 deg of the site's own
+                let mut spec = spec;
+                if kind == 9 && matches!(spec.policy, gen::P_NL_ALL | gen::P_NL_FI_ALWAYS | gen::P_NL_FI_INV) {
+                    // (u below 0.1: exactly the site's own latitude)
+                    let d = if u < 0.1 { 0.0 } else { 10f64.powf(-6.0 + 4.7 * u) };
+                    spec.policy_lat = F((lat + if south { d } else { -d }).clamp(-60.0, 60.0));
+                }
                 gen::site_lat(Just(lat).boxed(), 1.0).prop_map(move |site| Case { site, spec: spec.clone(), date })
             })
             .boxed()
